@@ -20,16 +20,16 @@ func runC04(c *Ctx) {
 	const pkg = "internal/poly1305"
 	for _, name := range []string{"(*mac).Write", "(*macGeneric).Write"} {
 		f := c.fnOpt(pkg, name)
-		if f == nil || len(f.Blocks) == 0 {
-			continue
+		if f == nil || len(f.Blocks) == 0 || f.Synthetic != "" {
+			continue // absent in this build, or a promoted-method wrapper around macGeneric's
 		}
 		c04Write(c, pkg, name, f)
 	}
 	pur := newPurity()
 	for _, name := range []string{"(*mac).Sum", "(*macGeneric).Sum"} {
 		f := c.fnOpt(pkg, name)
-		if f == nil || len(f.Blocks) == 0 {
-			continue
+		if f == nil || len(f.Blocks) == 0 || f.Synthetic != "" {
+			continue // absent in this build, or a promoted-method wrapper around macGeneric's
 		}
 		ok, why, at := pur.paramPure(f, 0, 0)
 		var pos poser = f
